@@ -2,6 +2,7 @@ import TunnoxModel.Proofs.C13
 import TunnoxModel.Proofs.C13Lin
 import TunnoxModel.Proofs.C13Alias
 import TunnoxModel.Spec.C13Alias
+import TunnoxModel.Model.C13Redis
 /-!
 # C13 — storage backends implement one TTL key-value semantics
 
@@ -291,6 +292,93 @@ example :
        .append "a" (.str "p") 0, .append "b" (.str "q") 0, .remove "a" (.str "x"), .peek 0, .getList "a", .getList "b"]
       Alias.St.empty).map Alias.renderL
       = ["ok", "ok", "L[s78,s79]", "ok", "ok", "ok", "ok", "L[s78,s79]", "L[s79,s70]", "L[s78,s79,s71]"] := by
+  decide +kernel
+
+/-! ## Lifetimes of existing containers -/
+
+theorem lookup_of_find {now : Nat} {s : Store} {k : String} {e : Entry} (hf : find now s k = some e) :
+    FMap.lookup s k = some e := by
+  unfold find at hf
+  cases hl : FMap.lookup s k with
+  | none => rw [hl] at hf; simp at hf
+  | some e' =>
+    rw [hl] at hf
+    by_cases h' : e'.live now <;> simp [Option.filter, h'] at hf
+    rw [hf]
+
+/-- **A call on an existing list / hash / counter never touches its lifetime** (reference; by
+`C13_refines` also the memory backend): after `SetHash` (of a new OR an existing field),
+`DeleteHash`, `AppendToList`, `RemoveFromList`, `IncrBy` on a visible key, the stored deadline is the
+one the key had — a key made permanent stays permanent, a short or long lifetime is not replaced
+by the default. -/
+theorem C13_container_ops_keep_lifetime (now : Nat) (s : Store) (k : String) (e : Entry)
+    (hf : find now s k = some e) (op : Op)
+    (hop : (∃ f a, op = .hset k f a) ∨ (∃ f, op = .hdel k f) ∨ (∃ a, op = .append k a) ∨
+           (∃ a, op = .remove k a) ∨ (∃ d, op = .incrBy k d)) :
+    (FMap.lookup (TTLStore.step Spec.dflt now op s).1 k).map (·.exp) = some e.exp := by
+  have hl := lookup_of_find hf
+  rcases hop with ⟨f, a, rfl⟩ | ⟨f, rfl⟩ | ⟨a, rfl⟩ | ⟨a, rfl⟩ | ⟨d, rfl⟩
+  · simp only [TTLStore.step, TTLStore.hset, hf]
+    cases e.val <;> simp [FMap.lookup_insert_eq]
+  · simp only [TTLStore.step, TTLStore.hdel, hf]
+    cases e.val <;> simp [FMap.lookup_insert_eq, hl]
+  · simp only [TTLStore.step, TTLStore.append, hf]
+    cases e.val <;> simp [FMap.lookup_insert_eq, hl]
+  · simp only [TTLStore.step, TTLStore.remove, hf]
+    cases e.val <;> simp [FMap.lookup_insert_eq, hl]
+  · simp only [TTLStore.step, TTLStore.incrBy, hf]
+    cases hv : e.val with
+    | atom a => cases a <;> simp [FMap.lookup_insert_eq, hl]
+    | _ => simp [hl]
+
+/-- The Redis backend's rule "EXISTS before the write" makes `SetHash` and `IncrBy` the reference
+calls, lifetimes included. -/
+theorem redis_created_rule_ok (dflt now : Nat) (s : Store) (k f : String) (a : Atom) (d : Int) :
+    Redis.hset .existedBefore dflt now s k f a = TTLStore.hset dflt now s k f a ∧
+    Redis.incrBy .existedBefore dflt now s k d = TTLStore.incrBy dflt now s k d := by
+  constructor
+  · unfold Redis.hset TTLStore.hset
+    cases find now s k with
+    | none => rfl
+    | some e =>
+      obtain ⟨v, ex⟩ := e
+      cases v <;> simp [Redis.hashCreated]
+  · unfold Redis.incrBy TTLStore.incrBy
+    cases find now s k with
+    | none => rfl
+    | some e =>
+      obtain ⟨v, ex⟩ := e
+      cases v with
+      | atom a => cases a <;> simp
+      | _ => simp
+
+/-- Source tie: the Redis backend decides "created" by EXISTS before the write in `SetHash` and
+`IncrBy`, and by LLEN after RPUSH in `AppendToList` (equivalent on Redis, which has no empty lists). -/
+theorem redis_created_rule_tie :
+    Gen.Skel.Red_SetHash = ["Exists", "HSet", "Expire"] ∧ Gen.Skel.Red_IncrBy = ["Exists", "IncrBy", "Expire"] ∧
+    Gen.Skel.Red_AppendToList = ["RPush", "LLen", "Expire"] := by decide +kernel
+
+/-- The other rules re-stamp an existing key with the default lifetime: `HLEN == 1` (as found) when
+the only field of a permanent hash is overwritten; HSET's reply (seeded regression) when a new field
+is added to a permanent hash; `result == increment` (as found) for a permanent counter at 0. -/
+theorem redis_created_rule_witnesses :
+    (Redis.hset .lenIsOne 100 1000 [("h", ⟨.hash [("f", .int 1)], 0⟩)] "h" "f" (.int 2)).1
+      = [("h", ⟨.hash [("f", .int 2)], 1100⟩)] ∧
+    (Redis.hset .replyIsOne 100 1000 [("h", ⟨.hash [("f", .int 1)], 0⟩)] "h" "g" (.int 2)).1
+      = [("h", ⟨.hash [("g", .int 2), ("f", .int 1)], 1100⟩)] ∧
+    (TTLStore.hset 100 1000 [("h", ⟨.hash [("f", .int 1)], 0⟩)] "h" "g" (.int 2)).1
+      = [("h", ⟨.hash [("g", .int 2), ("f", .int 1)], 0⟩)] ∧
+    (Redis.incrBy .resultIsDelta 100 1000 [("c", ⟨.atom (.int 0), 0⟩)] "c" 5).1
+      = [("c", ⟨.atom (.int 5), 1100⟩)] := by
+  decide +kernel
+
+/-- The seeded history on the Redis backend, as the predicate sees it: `GetExpiration` answering
+"longer than 2 h" for a hash made permanent fails `holdsRepo`; the reference answer passes. -/
+theorem redis_sethash_ttl_witness :
+    holdsRepo [(1000, .hset "h" "f" (.str "x")), (1001, .expire "h" 0), (1002, .hset "h" "g" (.str "y")),
+               (1003, .ttl "h")] ["ok", "ok", "ok", "dx"] = false ∧
+    holdsRepo [(1000, .hset "h" "f" (.str "x")), (1001, .expire "h" 0), (1002, .hset "h" "g" (.str "y")),
+               (1003, .ttl "h")] ["ok", "ok", "ok", "d0"] = true := by
   decide +kernel
 
 /-! ## Findings -/
